@@ -182,8 +182,25 @@ def main(pid, tier, seed, jobs=None):
     wall_cap = float(os.environ.get("VERIF_WALL_" + tier.upper(), "600" if tier == "quick" else "1500"))
     total = sum(s.get("budget", 60) for s in shards)
     scale = min(1.0, wall_cap * jobs / total) if total else 1.0
+    skipped = 0
     if scale < 1.0:
-        shards = [dict(s, budget=max(20, int(s.get("budget", 60) * scale))) for s in shards]
+        floor = 30.0
+        if min(s.get("budget", 60) for s in shards) * scale < floor and len(shards) * floor > wall_cap * jobs:
+            # too many shards for the wall cap: run a seed-chosen subset with a useful budget each, say how many were left out
+            import random
+
+            keep = max(1, int(wall_cap * jobs / floor))
+            rnd = random.Random(seed)
+            idx = sorted(rnd.sample(range(len(shards)), keep))
+            skipped = len(shards) - keep
+            shards = [shards[i] for i in idx]
+            names = [s["name"] for s in shards]
+            total = sum(s.get("budget", 60) for s in shards)
+            scale = min(1.0, wall_cap * jobs / total)
+        shards = [dict(s, budget=max(floor, int(s.get("budget", 60) * scale))) for s in shards]
+    if skipped:
+        print(f"({skipped} of {skipped + len(shards)} shards of the {tier} tier skipped to stay within VERIF_WALL_{tier.upper()}={wall_cap:.0f}s "
+              f"on {jobs} cores; the subset is chosen by VERIF_SEED={seed})")
     order = sorted(range(len(shards)), key=lambda i: -shards[i].get("budget", 60))
     results = _run_all(pid, [shards[i] for i in order], jobs)
     by_name = {s["name"]: s for s in shards}
@@ -257,6 +274,7 @@ def main(pid, tier, seed, jobs=None):
         disagreements_checked=tot("forall_queries"),
         shards=per_shard,
         shards_total=len(results),
+        shards_skipped_for_wall_cap=skipped,
         shards_exhausted=sum(1 for r in results if r["exhausted"]),
         paths_unknown=tot("unknown"),
         paths_ignored=tot("ignored"),
